@@ -605,6 +605,18 @@ def ow4(ctx, R):
     R.check(not others, "tdms.TdmsChannel::cache single writer", fi.where(), "cache written only by integer indexing (and reset in __init__)",
             "cache also written in %s" % (others[0] if others else ""))
     _cache_hit_test(ctx, R, fi)
+    # what the cache holds is scaled data of whatever chunk was indexed last: accessors that promise raw data, or data that does not
+    # depend on earlier reads, must not be answered from it
+    from .sym import Sym, simplify
+    from .sem import mentions
+    rd = prog.func("tdms.TdmsChannel.read_data")
+    if "scaled" in rd.params:
+        v_raw = simplify(Sym(prog, rd, rd.cls).function_value({"scaled": ("const", False)}), lambda c: None)
+        if v_raw[0] != "opaque":
+            R.check(not mentions(v_raw, cm["V"]), "tdms.TdmsChannel.read_data::raw reads bypass the chunk cache", rd.where(),
+                    "read_data(scaled=False) never returns data taken from the (scaled) chunk cache",
+                    "read_data(scaled=False) can be answered from the chunk cache of integer indexing, which holds SCALED data: the result of a raw "
+                    "read then depends on which index was read before")
 
 
 def _is_field(t):
